@@ -299,7 +299,17 @@ def order_verdicts(report, sc, ybin, seed):
     P = lambda n: ("prim", n)
     filler = [{"kind": "record", "name": "ZzFill", "tparams": [], "fields": [("a", P("int32"))]},
               {"kind": "protocol", "name": "ZzFillP", "steps": [("a", ("named", "ZzFill", []), False)]}]
-    for rule, mk in c09.DEF_VIOLATIONS:
+    # names that coincide without (necessarily) breaking a rule: whatever the verdict is, it is the same in every order
+    coincidences = [
+        ("type-parameter-named-like-a-record", lambda: [{"kind": "record", "name": "ZzPixel", "tparams": [], "fields": [("v", P("uint8"))]},
+                                                        {"kind": "record", "name": "ZzImage", "tparams": ["ZzPixel"], "fields": [("data", ("vec", ("tparam", "ZzPixel"), None))]}]),
+        ("type-parameter-named-like-an-alias", lambda: [{"kind": "record", "name": "ZzBoxed", "tparams": ["ZzAl"], "fields": [("v", ("tparam", "ZzAl"))]},
+                                                        {"kind": "alias", "name": "ZzAl", "tparams": [], "type": P("float32")}]),
+        ("type-parameter-named-like-an-enum-used-next-to-it", lambda: [{"kind": "enum", "name": "ZzE", "flags": False, "base": None, "auto": True, "values": [("a", 0), ("b", 1)]},
+                                                                        {"kind": "record", "name": "ZzG", "tparams": ["ZzE"], "fields": [("v", ("tparam", "ZzE"))]},
+                                                                        {"kind": "record", "name": "ZzUsesE", "tparams": [], "fields": [("e", ("named", "ZzE", []))]}]),
+    ]
+    for rule, mk in list(c09.DEF_VIOLATIONS) + coincidences:
         defs = mk()
         if isinstance(defs, str):
             defs = c09._cycle(defs, "Nope") if not defs.startswith("through-imported") else None
